@@ -47,18 +47,20 @@ package ring
 //@ # so "the" winner of a token is the unique minimal claimant whatever the map iteration order.
 //@ opaque pred beats(m map[string]InstanceDesc, a string, b string) = (m[a].State != LEAVING && m[b].State == LEAVING) || ((m[a].State == LEAVING) == (m[b].State == LEAVING) && a <= b)
 //@ lemma beatsTotalOrder(m map[string]InstanceDesc, a string, b string, c string)
-//@   property C05
+//@   property C05 C03
 //@   ensures beats(m, a, a)
 //@   ensures beats(m, a, b) || beats(m, b, a)
 //@   ensures beats(m, a, b) && beats(m, b, a) ==> a == b
 //@   ensures beats(m, a, b) && beats(m, b, c) ==> beats(m, a, c)
 //@
 //@ lemma beatsTrans(m map[string]InstanceDesc, a string, b string)
-//@   property C05
+//@   property C05 C03
 //@   ensures forall c string :: beats(m, a, b) && beats(m, b, c) ==> beats(m, a, c)
 //@
 //@ func resolveConflicts
-//@   property C05
+//@   # (also C03: merge is commutative and idempotent on the resulting state only if the winner of a colliding token does
+//@   # not depend on the merge direction or on map iteration order)
+//@   property C05 C03
 //@   # token storage is shared with clones handed to readers (Desc.Clone): never write it in place
 //@   nowrite normalizedIngesters
 //@   requires !isnil(normalizedIngesters)
